@@ -22,7 +22,7 @@ PID = 'C14'
 FAMILY = 'Block'
 PROPFILE = 'PropC14.v'
 LEVEL = 'proof'
-REQUIRES = ['From SFC.Base Require Import Res.', 'From SFC.Block Require Import Classify CaseDefs.']
+REQUIRES = ['From SFC.Base Require Import Res.', 'From SFC.Block Require Import Classify Blocks CaseDefs.']
 
 WORD = 'exogenous'
 NAMES = ['x', 'y', 'z', 't', 't_minus_1', 'HH__F', 'GOV__T', 'LAG_x', 'k2', 'alpha', 'Y_1', 'C', 'MaxTimes', 'tt',
@@ -287,6 +287,32 @@ def emit(text, res):
     return 'c14_case %s %s %s' % (tbl, coq_string(text), r)
 
 
+def coq_item(it, c):
+    k = it['kind']
+    cm = 'None' if c is None else '(Some %s)' % coq_string(c)
+    sp = '(mkSp %s)' % ' '.join(coq_string(w) for w in it['sp']) if 'sp' in it else ''
+    if k in ('Endo', 'Exo', 'IC'):
+        body = '%s %s %s %s' % (k, coq_string(it['x']), coq_string(it['rhs']), sp)
+    elif k == 'Lag':
+        body = 'Lag %s %s %s %s' % (coq_string(it['x']), coq_string(it['src']), {'k': 'FK', 't': 'FT', 'tok': 'FTok'}[it['form']], sp)
+    elif k == 'Marker':
+        body = 'Marker %s' % coq_string(it['text'])
+    elif k in ('MaxTimeI', 'TolI'):
+        body = '%s %s %s' % (k, coq_string(it['txt']), sp)
+    elif k == 'CommentLine':
+        return '(CommentLine %s %s)' % (coq_string(it['ws']), coq_string(it['c']))
+    elif k == 'Blank':
+        return '(Blank %s)' % coq_string(it['ws'])
+    else:
+        body = 'Junk %s' % coq_string(it['text'])
+    return '(Code (%s) %s)' % (body, cm)
+
+
+def emit_desc(items, cs, text):
+    tbl = coq_list(['(%s, %s)' % (coq_string(k), coq_bool(v)) for k, v in sorted(float_table(text).items())])
+    return 'c14_desc_case %s %s %s' % (tbl, coq_list([coq_item(it, c) for it, c in zip(items, cs)]), coq_string(text))
+
+
 # ---------------------------------------------------------------- oracle
 def squash(s):
     return ''.join(str(s).split())
@@ -431,9 +457,9 @@ def run(ctx):
     out = common.Outcome()
     out.proof = common.proof_status(FAMILY, PROPFILE)
     common.use_impl()
-    n_desc = ctx.scale(350, 5000)
-    n_mal = ctx.scale(400, 6000)
-    n_model = ctx.scale(40, 400)
+    n_desc = ctx.scale(800, 6000)
+    n_mal = ctx.scale(1200, 9000)
+    n_model = ctx.scale(60, 500)
     cases, metas, seen = [], [], set()
     stats = {'descriptions': 0, 'malformed_blocks': 0, 'model_runs': 0, 'with_marker': 0, 'hostile_word_in_trailing_comment': 0,
              'lag_forms': {'k': 0, 't': 0, 'tok': 0}, 'raised': 0, 'junk_items': 0, 'default_t': 0}
@@ -444,6 +470,10 @@ def run(ctx):
             text = print_block(c['items'], cs)
             cases.append(emit(text, run_impl(text)))
             metas.append({'text': text})
+        text = print_block(c['items'], c['cs1'])
+        cases.append(emit_desc(c['items'], c['cs1'], text))
+        metas.append({'text': text, 'kind': 'description is well-formed for the theorems and the Coq printer gives this text',
+                      'items': c['items']})
         stats['descriptions'] += 1
         stats['with_marker'] += 1 if any(is_marker(it) for it in c['items']) else 0
         hw = any(x is not None and WORD in x.lower() for x in c['cs1'] + c['cs2'])
@@ -485,7 +515,7 @@ def run(ctx):
                 'soup); plus malformed blocks (bad MaxTime/Err_Tolerance, "x (0) = 1", "y(k-1) + 1", marker word inside names, '
                 'character soup); plus end-to-end Model.main() runs with a hostile description or sector long name. '
                 'non-trivial = description with at least three equation items and a non-empty comment; distinct by full input')
-    out.samples = [m['text'] for m in metas[:3]] + [m['text'] for m in metas[2 * n_desc:2 * n_desc + 2]]
+    out.samples = [m['text'] for m in metas[:3]] + [m['text'] for m in metas[3 * n_desc:3 * n_desc + 2]]
     out.extra = {'input_distribution': stats,
                  'source_hashes': common.source_hashes(['sfc_models/equation_parser.py', 'sfc_models/models.py', 'sfc_models/sector.py'])}
     out.trusted_base = ['Coq 8.16.1 kernel + vm_compute',
